@@ -9,6 +9,9 @@ import (
 	"fmt"
 	"math/big"
 	"math/rand"
+	"os"
+	"strconv"
+	"syscall"
 
 	"github.com/skycoin/skycoin/src/cipher"
 	"github.com/skycoin/skycoin/src/coin"
@@ -206,4 +209,31 @@ func FlipBit(b []byte, i int) []byte {
 	out := append([]byte(nil), b...)
 	out[i/8] ^= 0x80 >> uint(i%8)
 	return out
+}
+
+// Scaled multiplies a case count by $VERIF_SCALE (self-test knob for trying breaking changes
+// quickly; unset in normal runs, where case lists depend on seed and tier only)
+func Scaled(n int) int {
+	v := os.Getenv("VERIF_SCALE")
+	if v == "" {
+		return n
+	}
+	f, err := strconv.ParseFloat(v, 64)
+	if err != nil || f <= 0 {
+		return n
+	}
+	m := int(float64(n) * f)
+	if m < 1 {
+		m = 1
+	}
+	return m
+}
+
+// CPUSeconds returns user+system CPU time of this process and its waited-for children
+func CPUSeconds() float64 {
+	var a, b syscall.Rusage
+	_ = syscall.Getrusage(syscall.RUSAGE_SELF, &a)
+	_ = syscall.Getrusage(syscall.RUSAGE_CHILDREN, &b)
+	tv := func(t syscall.Timeval) float64 { return float64(t.Sec) + float64(t.Usec)/1e6 }
+	return tv(a.Utime) + tv(a.Stime) + tv(b.Utime) + tv(b.Stime)
 }
